@@ -67,6 +67,8 @@ class Imager:
             return ("deep", type(o).__name__)
         if isinstance(o, (list, tuple, deque)):
             return (type(o).__name__[0],) + tuple(self.img(x, depth + 1) for x in o)
+        if type(o).__name__ == "OSet":
+            return ("os",) + tuple(self.img(x, depth + 1) for x in o)
         if isinstance(o, (set, frozenset)):
             return ("s",) + tuple(sorted((self.img(x, depth + 1) for x in o), key=repr))
         if isinstance(o, dict):
